@@ -654,3 +654,137 @@ Proof.
     destruct (IH _ _ _ _ H) as [t [-> Hr]]. exists (c ++ t). split; [now rewrite app_assoc|].
     apply (reads_trans false x c x1); [|exact Hr]. apply (pop1_reads false false false); [assumption|apply tabs_ok_plain].
 Qed.
+
+(* ------------------------------------------------------------------ loops: the value grows by what the pops read *)
+Lemma same_pos_trans x y z : same_pos x y -> same_pos y z -> same_pos x z.
+Proof. intros (A & B & C) (D & E & F). repeat split; congruence. Qed.
+
+Lemma ident_loop_reads : forall fuel value x v' x', ident_loop fuel value x = IDone v' x' ->
+  exists t, v' = value ++ t /\ reads false x t x'.
+Proof.
+  induction fuel as [|fuel IH]; intros value x v' x' H; cbn [ident_loop] in H; [discriminate|].
+  assert (Hdone : IDone value x = IDone v' x' -> exists t, v' = value ++ t /\ reads false x t x').
+  { intros E; inversion E; subst. exists []. split; [now rewrite app_nil_r|apply reads_refl]. }
+  destruct (rest x) as [|c r] eqn:Er; [now apply Hdone|].
+  destruct (is_ident_char c); cbn [negb] in H; [|now apply Hdone].
+  destruct (pop1 false false x) as [t x1|x1|] eqn:Ep; try discriminate.
+  destruct (IH _ _ _ _ H) as [t2 [-> Hr]]. exists (t ++ t2). split; [now rewrite app_assoc|].
+  apply (reads_trans false x t x1); [|exact Hr]. apply (pop1_reads false false false); [assumption|apply tabs_ok_plain].
+Qed.
+
+Lemma lc_loop_reads : forall fuel value x v' x', lc_loop fuel value x = LDone v' x' ->
+  exists t, v' = value ++ t /\ reads false x t x'.
+Proof.
+  induction fuel as [|fuel IH]; intros value x v' x' H; cbn [lc_loop] in H; [discriminate|].
+  assert (Hdone : LDone value x = LDone v' x' -> exists t, v' = value ++ t /\ reads false x t x').
+  { intros E; inversion E; subst. exists []. split; [now rewrite app_nil_r|apply reads_refl]. }
+  destruct (peek1 (rest x)) as [[c n]|]; [|now apply Hdone].
+  destruct (is_nl c); [now apply Hdone|].
+  destruct (pop1 false false x) as [t x1|x1|] eqn:Ep; try discriminate.
+  - destruct (IH _ _ _ _ H) as [t2 [-> Hr]]. exists (t ++ t2). split; [now rewrite app_assoc|].
+    apply (reads_trans false x t x1); [|exact Hr]. apply (pop1_reads false false false); [assumption|apply tabs_ok_plain].
+  - inversion H; subst. exists []. split; [now rewrite app_nil_r|]. now apply (pop1_eof false false false).
+Qed.
+
+Lemma string_loop_reads : forall fuel value x v' cl x', string_loop fuel value x = SDone v' cl x' ->
+  exists t, v' = value ++ t /\ reads false x t x'.
+Proof.
+  induction fuel as [|fuel IH]; intros value x v' cl x' H; cbn [string_loop] in H; [discriminate|].
+  destruct (peek1 (rest x)) as [[c n]|].
+  2: { inversion H; subst. exists []. split; [now rewrite app_nil_r|apply reads_refl]. }
+  destruct (pop1 false true x) as [t x1|x1|] eqn:Ep; try discriminate.
+  - pose proof (pop1_reads false false true x t x1 Ep (tabs_ok_escape t)) as Hr1.
+    destruct (str_eqb t [34%N]).
+    + inversion H; subst. exists t. split; [reflexivity|]. rewrite <- (app_nil_r t). apply (reads_trans false x t x'); [assumption|apply reads_refl].
+    + destruct (IH _ _ _ _ _ H) as [t2 [-> Hr]]. exists (t ++ t2). split; [now rewrite app_assoc|]. now apply (reads_trans false x t x1).
+  - destruct (IH _ _ _ _ _ H) as [t2 [-> Hr]]. exists t2. split; [reflexivity|].
+    change t2 with ([] ++ t2). apply (reads_trans false x [] x1); [now apply (pop1_eof false false true)|exact Hr].
+Qed.
+
+Lemma char_loop_reads : forall fuel l0 c0 value chars x v' ch' x', char_loop fuel l0 c0 value chars x = CDone v' ch' x' ->
+  exists t, v' = value ++ t /\ reads false x t x'.
+Proof.
+  induction fuel as [|fuel IH]; intros l0 c0 value chars x v' ch' x' H; cbn [char_loop] in H; [discriminate|].
+  destruct (pop1 false true x) as [t x1|x1|] eqn:Ep; try discriminate.
+  - pose proof (pop1_reads false false true x t x1 Ep (tabs_ok_escape t)) as Hr1.
+    destruct (is_nl t).
+    + inversion H; subst. exists []. split; [now rewrite app_nil_r|].
+      apply (reads_same_r false x [] x); [repeat split|apply reads_refl].
+    + destruct (str_eqb t [39%N]).
+      * inversion H; subst. exists t. split; [reflexivity|]. rewrite <- (app_nil_r t). apply (reads_trans false x t x'); [assumption|apply reads_refl].
+      * destruct (IH _ _ _ _ _ _ _ _ H) as [t2 [-> Hr]]. exists (t ++ t2). split; [now rewrite app_assoc|]. now apply (reads_trans false x t x1).
+  - inversion H; subst. exists []. split; [now rewrite app_nil_r|].
+    apply (reads_same_r false x [] x1); [apply same_pos_add_err|now apply (pop1_eof false false true)].
+Qed.
+
+Lemma mc_loop_reads : forall fuel value x v' eof x', mc_loop fuel value x = MDone v' eof x' ->
+  exists t, v' = value ++ t /\ reads true x t x'.
+Proof.
+  induction fuel as [|fuel IH]; intros value x v' eof x' H; cbn [mc_loop] in H; [discriminate|].
+  destruct (peek1 (rest x)) as [[c n]|].
+  2: { inversion H; subst. exists []. split; [now rewrite app_nil_r|apply reads_refl]. }
+  destruct (pop1 true false x) as [t x1|x1|] eqn:Ep; try discriminate.
+  - pose proof (pop1_reads true true false x t x1 Ep (tabs_ok_comment t)) as Hr1. cbv zeta in H.
+    destruct (ends_with (s "*/") (value ++ t)).
+    + inversion H; subst. exists t. split; [reflexivity|]. rewrite <- (app_nil_r t). apply (reads_trans true x t x'); [assumption|apply reads_refl].
+    + destruct (IH _ _ _ _ _ H) as [t2 [-> Hr]]. exists (t ++ t2). split; [now rewrite app_assoc|]. now apply (reads_trans true x t x1).
+  - inversion H; subst. exists []. split; [now rewrite app_nil_r|]. now apply (pop1_eof true true false).
+Qed.
+
+Lemma quote_prefix_reads q : forall ps x pre x1, quote_prefix q ps x = Some (PopOk pre x1) -> reads false x pre x1.
+Proof.
+  induction ps as [|p ps IH]; intros x pre x1 H; cbn [quote_prefix] in H.
+  - inversion H; subst. apply reads_refl.
+  - destruct (raw_peek (S (List.length p)) (rest x)) as [[|a r]|]; try discriminate.
+    destruct (starts_with p (a :: r) && ends_with [q] (a :: r)); [|now apply IH].
+    inversion H as [E]. destruct (popn_reads _ _ _ _ _ E) as [t [-> Hr]]. exact Hr.
+Qed.
+
+(* ------------------------------------------------------------------ sub-parsers *)
+Definition tok_cm (t : token) : bool := str_eqb (t_type t) (s "MULT_COMMENT").
+Definition tok_ok (x : st) (r : pres) : Prop :=
+  match r with
+  | PTok t x' => exists text, text_of t = Some text /\ reads (tok_cm t) x text x'
+  | _ => True
+  end.
+
+Lemma of_popres_ok x r k : (forall t x1, r = PopOk t x1 -> tok_ok x (k t x1)) -> tok_ok x (of_popres r k).
+Proof. intros H. destruct r; cbn; auto. Qed.
+
+Lemma if_add_err_pos (b : bool) d x : same_pos x (if b then add_err d x else x).
+Proof. destruct b; [apply same_pos_add_err|apply same_pos_refl]. Qed.
+
+Lemma parse_char_literal_text x : tok_ok x (parse_char_literal x).
+Proof.
+  unfold parse_char_literal.
+  destruct (quote_prefix 39%N quote_prefixes x) as [[pre x1|x1|]|] eqn:Eq; try exact I.
+  destruct (first_is 39%N (rest x1)); cbn [negb]; [|exact I].
+  destruct (pop1 false false x1) as [q x2|x2|] eqn:Ep; try exact I.
+  destruct (char_loop char_loop_bound (line x) (col x) (pre ++ q) 0 x2) as [value chars x3|] eqn:Ec; [|exact I].
+  cbv zeta. cbn [tok_ok]. exists value. split; [reflexivity|]. change (tok_cm _) with false.
+  destruct (char_loop_reads _ _ _ _ _ _ _ _ _ Ec) as [t [-> Hr3]].
+  eapply reads_same_r; [eapply same_pos_trans; apply if_add_err_pos|].
+  rewrite <- app_assoc. apply (reads_trans false x pre x1); [now apply (quote_prefix_reads 39%N quote_prefixes)|].
+  apply (reads_trans false x1 q x2); [apply (pop1_reads false false false); [assumption|apply tabs_ok_plain]|exact Hr3].
+Qed.
+
+Lemma parse_string_literal_text x : tok_ok x (parse_string_literal x).
+Proof.
+  unfold parse_string_literal. destruct (peek1 (rest x)); [|exact I].
+  destruct (quote_prefix 34%N quote_prefixes x) as [[pre x1|x1|]|] eqn:Eq; try exact I.
+  destruct (first_is 34%N (rest x1)); cbn [negb]; [|exact I].
+  destruct (pop1 false false x1) as [q x2|x2|] eqn:Ep; try exact I.
+  destruct (string_loop (S (List.length (rest x2))) (pre ++ q) x2) as [value closed x3| |] eqn:Ec; try exact I.
+  cbv zeta. cbn [tok_ok]. exists value. split; [reflexivity|]. change (tok_cm _) with false.
+  destruct (string_loop_reads _ _ _ _ _ _ Ec) as [t [-> Hr3]].
+  eapply reads_same_r; [apply if_add_err_pos with (b := negb closed)|].
+  assert (Hx : (if closed then x3 else add_err (from_name (s "UNEXPECTED_EOF_STR") lv_error
+                  [mkhl (line x) (col x) (Some (zl ((pre ++ q) ++ t))) None;
+                   mkhl (line x) (col x + zl ((pre ++ q) ++ t)) (Some 1) (Some hint_string)]) x3) =
+               (if negb closed then add_err (from_name (s "UNEXPECTED_EOF_STR") lv_error
+                  [mkhl (line x) (col x) (Some (zl ((pre ++ q) ++ t))) None;
+                   mkhl (line x) (col x + zl ((pre ++ q) ++ t)) (Some 1) (Some hint_string)]) x3 else x3)) by (destruct closed; reflexivity).
+  rewrite Hx. clear Hx.
+  match goal with |- reads _ _ _ (if _ then add_err ?d _ else _) => idtac end.
+  rewrite <- app_assoc.
+Abort.
